@@ -30,17 +30,27 @@ TRUSTED = [
     "independent walker / offset resolver harness/fam/walkers.py (mp4_atoms, mp4_offsets, mp4) as the judge of the direct oracle",
 ]
 MANIFEST = {
-    "text": "full for the modelled surgery: theorems over the Gallina mirror of MP4Tags.save for every well-formed atom tree "
-            "(any nesting, 32/64-bit/0 size forms, any number of trak/moof, free before/after/none), every rendered ilst, every "
-            "padding callback: every stco/co64 entry and every tfhd base offset beyond the replaced region moves by exactly the size "
-            "change and addresses the same bytes, entries not past the region start are unchanged, every ancestor size field grows by "
-            "the size change (64-bit aware, size-0 untouched) and the result is again well-formed (atoms tile their parents); "
-            "model tied to the implementation by byte-exact correspondence on synthesised layouts and samples",
-    "note": "Modelled, not verified: the atom reader and save surgery (hand mirror, tied by correspondence); the item codecs (ilst "
-            "payload) are not part of C10. The model cannot exhibit I/O failures (C06/C19). Offsets pointing INTO the replaced "
-            "region are shifted like the others by the code (they address tag bytes, not media): stated, not required.",
-    "technique": "Coq proof over a byte-exact reference model (splice skeleton + patch frame lemmas) + extracted-model correspondence "
-                 "+ independent-walker oracle on synthesised atom layouts",
+    "text": "theorems over the Gallina mirror of MP4Tags.save, for EVERY well-formed atom tree (any nesting up to mutagen's 65 levels, "
+            "32/64-bit/to-EOF size forms, any number of trak/moof/free atoms; not an enumeration), every rendered ilst that is itself a "
+            "well-formed atom, every padding callback: (1) every stco/co64 entry and the tfhd base offset of every top-level moof becomes "
+            "o+delta iff o > region start, count unchanged, and every leaf atom outside the replaced region that is not such a table keeps "
+            "all its bytes at the moved position (C10_offsets_follow_data, C10_chunk_bytes; also for files without udta/meta/ilst: "
+            "C10_offsets_follow_data_new); (2) the result is tiled at every level, i.e. every ancestor size field (32-bit, 64-bit, "
+            "untouched to-EOF form) equals the extent of its children, and is the tree the next load parses (C10_parents_consistent, "
+            "C10_parents_consistent_new); (3) mp4_wf is preserved in full for files with tags (C10_wellformed_preserved). "
+            "Partial: one save step; repeated saves are covered by the run (3 saves in a row on one object and through fresh objects), "
+            "the preservation of the side conditions `covered` / `mp4_tags_clean` is not proved; builder layouts are shown well-formed "
+            "per layout at run time (model mp4_wf + independent walker), not by a general theorem about the builder",
+    "note": "Modelled, not verified: the atom reader and the save surgery (hand mirror coq/model/Fam_mp4.v, tied by byte-exact "
+            "correspondence on every save of this check, incl. a malformed stream for the error paths); the item codecs (ilst payload) are "
+            "inputs. Preconditions found by the proofs and stated in the theorems: no ilst item named stco/co64/tfhd (findall would take it "
+            "for a table); every stco/co64 below the first moov and every tfhd below a top-level moof (others are not visited by "
+            "mutagen); in __save_new no table may be the first direct child of moov/udta (`atom.offset > offset` misses it). Offsets "
+            "pointing INTO the replaced region are shifted like those behind it (they address tag bytes): stated, not required. "
+            "The model cannot exhibit I/O failures (C06/C19).",
+    "technique": "Coq proof over a byte-exact reference model (parser completeness w.r.t. a strict tiling description, splice + patch "
+                 "frame lemmas over ordered atom segments, tree relocation lemma) + extracted-model correspondence + independent-walker "
+                 "oracle on synthesised atom layouts",
     "design_ref": "DESIGN.md section 5, C10",
 }
 RULE = ("layouts: the model's builder grammar (moov before/after mdat x udta/meta/ilst present or missing x free before/after/both/"
